@@ -116,21 +116,75 @@ Print Assumptions link_evaluate_bitstring_model.
 Lemma alpha_guard alpha : (Qle_bool alpha (inject_Z 0) || PyPrelude.Qltb (inject_Z 1) alpha)%bool = negb (alpha_ok alpha).
 Proof. unfold alpha_ok. rewrite negb_involutive. reflexivity. Qed.
 
-Lemma link_expectation_with_operator : forall d op alpha,
-  gen_expectation_with_operator d op alpha = expectation_with_operator d op alpha.
+(* qiskit's sampled_expectation_value divides by the total mass of the distribution, the hand-written model's plain_expectation does
+   not (found by translator/conformance.py, families callee-qiskit-sampled-expectation-value-...).  The spec maps the callee to what it
+   really computes (specs/c14.py preamble: sampled_expectation_value; mass 0 = nan / inf = Err "NonFinite"); [expectation_with_operator_real] is
+   get_expectation_with_operator with THAT callee: the generated definition equals it for every distribution, and it equals the model's
+   expectation_with_operator whenever the total mass is 1 (is_dist, the hypothesis of every C14 theorem; count/shots distributions). *)
+Definition expectation_with_operator_real (d : dist) (op : list term) (alpha : Q) : result Q :=
+  if negb (alpha_ok alpha) then Err "ValueError"
+  else if isclose alpha 1 then sampled_expectation_value d op
+  else get_expectation (sort_by_value (map (fun sp => (snd sp, eval_diag op (fst sp))) d)) alpha.
+
+Lemma link_expectation_with_operator_real : forall d op alpha,
+  gen_expectation_with_operator d op alpha = expectation_with_operator_real d op alpha.
 Proof.
-  intros d op alpha. unfold gen_expectation_with_operator, expectation_with_operator.
+  intros d op alpha. unfold gen_expectation_with_operator, expectation_with_operator_real.
   change (Qle_bool alpha (inject_Z 0) || _)%bool with (Qle_bool alpha (inject_Z 0) || PyPrelude.Qltb (inject_Z 1) alpha)%bool.
   rewrite alpha_guard. destruct (negb (alpha_ok alpha)); [reflexivity|].
-  change (inject_Z 1) with 1. unfold sampled_expectation_value.
+  change (inject_Z 1) with 1.
   change (isclose_tol atol alpha 1) with (isclose alpha 1).
-  destruct (isclose alpha 1); [reflexivity|].
+  destruct (isclose alpha 1); [destruct (sampled_expectation_value d op); reflexivity|].
   rewrite link_get_expectation, drop_sorted, map_map.
   assert (E : forall (l : list (N * Q)),
              map (fun x => drop_state (let '(state, probability) := x in (state, probability, eval_diag op state))) l
              = map (fun sp => (snd sp, eval_diag op (fst sp))) l).
   { intros l. apply map_ext. intros [s p]. reflexivity. }
   rewrite E. destruct (get_expectation _ alpha); reflexivity.
+Qed.
+Print Assumptions link_expectation_with_operator_real.
+
+(* total mass 1: the real callee IS the model's plain_expectation *)
+Lemma sampled_expectation_value_mass1 d op :
+  Qeq_bool (dist_mass d) 1 = true ->
+  sampled_expectation_value d op = Ok (plain_expectation (map (fun sp => (snd sp, eval_diag op (fst sp))) d)).
+Proof. intros H. unfold sampled_expectation_value. cbv zeta. rewrite H. reflexivity. Qed.
+
+(* every non-zero total mass: the value is the quotient (the case split on mass 1 in the spec is only a presentation) *)
+Lemma sampled_expectation_value_quotient d op :
+  Qeq_bool (dist_mass d) 0 = false ->
+  exists v, sampled_expectation_value d op = Ok v
+            /\ v == plain_expectation (map (fun sp => (snd sp, eval_diag op (fst sp))) d) / dist_mass d.
+Proof.
+  intros H0. unfold sampled_expectation_value. cbv zeta.
+  destruct (Qeq_bool (dist_mass d) 1) eqn:H1.
+  - eexists. split; [reflexivity|]. apply Qeq_bool_eq in H1. rewrite H1. unfold Qdiv. change (/ 1) with 1. ring.
+  - rewrite H0. eexists. split; reflexivity.
+Qed.
+
+(* total mass 0: nan / inf (Err "NonFinite"), never a value *)
+Lemma sampled_expectation_value_mass0 d op :
+  Qeq_bool (dist_mass d) 0 = true -> exists e, sampled_expectation_value d op = Err e.
+Proof.
+  intros H0. unfold sampled_expectation_value. cbv zeta.
+  destruct (Qeq_bool (dist_mass d) 1) eqn:H1.
+  - apply Qeq_bool_eq in H0. apply Qeq_bool_eq in H1. rewrite H0 in H1. discriminate H1.
+  - rewrite H0. eexists. reflexivity.
+Qed.
+
+Lemma expectation_with_operator_real_mass1 d op alpha :
+  Qeq_bool (dist_mass d) 1 = true -> expectation_with_operator_real d op alpha = expectation_with_operator d op alpha.
+Proof.
+  intros H. unfold expectation_with_operator_real, expectation_with_operator.
+  rewrite (sampled_expectation_value_mass1 d op H). reflexivity.
+Qed.
+
+(* Hypothesis: the distribution has total mass 1. *)
+Lemma link_expectation_with_operator : forall d op alpha,
+  Qeq_bool (dist_mass d) 1 = true ->
+  gen_expectation_with_operator d op alpha = expectation_with_operator d op alpha.
+Proof.
+  intros d op alpha Hmass. rewrite link_expectation_with_operator_real. apply expectation_with_operator_real_mass1. exact Hmass.
 Qed.
 Print Assumptions link_expectation_with_operator.
 
